@@ -31,9 +31,9 @@ RULE = ('part 1: every sparsity mask of every shape of the tier (distinct values
         'non-trivial = table with a non-zero cell, distinct by (shape, mask, layout). part 2: BFS over '
         'histories with the reorder ops judged against the dense model')
 
-OID = ['o10', 'o9', 'o2', 'o1']
+OID = ['obs_10', 'obs_9', 'o2', 'obs_1']     # wider than every sample id and than most rename targets
 SID = ['s2', 's10', 's3', 's1']
-POOL = ['a', 'bb', 'o10', 'a_very_long_identifier_x', 'ü']
+POOL = ['a', 'bb', 'obs_9', 'a_very_long_identifier_x', 'ü']     # 'obs_9' is also an id of the table
 LAYOUTS = ['csr', 'csc', 'unsorted']
 REORDER_OPS = ('sort', 'rev', 'rot', 'transpose', 'copy', 'align', 'align_detect', 'rename_long',
                'rename_partial', 'rename_swap', 'rename_rot')
@@ -53,6 +53,9 @@ def make(case):
         vals.append(row)
     D = np.array(vals, float).reshape(N, Mm)
     oids, sids = OID[:N], SID[:Mm]
+    if case.get('same_ids'):
+        # a co-occurrence style table: the same labels on both axes
+        oids = sids = ['g2', 'g10', 'g3', 'g1'][:N]
     omd = [{'tax': 't_' + i, 'n': k} for k, i in enumerate(oids)] if case.get('md', True) else None
     smd = [{'site': 'x_' + i} for i in sids] if case.get('md', True) else None
     cp = (lambda x: None if x is None else [dict(e) for e in x])
@@ -79,6 +82,11 @@ def cases(tier, seed):
         for mask in masks:
             for lay in LAYOUTS:
                 out.append({'shape': list(sh), 'mask': mask, 'layout': lay, 'md': True})
+    for sh in ((2, 2), (3, 3)):
+        n = sh[0] * sh[1]
+        for mask in ((1 << n) - 1, 0b101101011 & ((1 << n) - 1), 0b011010110 & ((1 << n) - 1)):
+            for lay in LAYOUTS:
+                out.append({'shape': list(sh), 'mask': mask, 'layout': lay, 'md': True, 'same_ids': True})
     for sh in ([(4, 2), (2, 4)] if tier == 'quick' else [(4, 2), (2, 4), (4, 3), (3, 4)]):
         n = sh[0] * sh[1]
         for mask in ((1 << n) - 1, 0b10110101 & ((1 << n) - 1), 0b011011100110 & ((1 << n) - 1)):
@@ -92,7 +100,7 @@ def check(case, acc, tmp):
     from biom.exception import DisjointIDError
     t0, m0 = make(case)
     if case['mask']:
-        acc.nontrivial.add(h64((tuple(case['shape']), case['mask'], case['layout'], case['md'])))
+        acc.nontrivial.add(h64((tuple(case['shape']), case['mask'], case['layout'], case['md'], case.get('same_ids'))))
     acc.count('layout:' + O.layout_class(t0))
     P.state(acc, 'src', O.concrete_key(t0))
     start = m0.content()
@@ -345,5 +353,5 @@ def run(run):
 def replay(case):
     if 'history' in case:
         return E.replay_history(spec(len(case['history'])), case)
-    base = {k: case[k] for k in ('shape', 'mask', 'layout', 'md')}
+    base = {k: case[k] for k in ('shape', 'mask', 'layout', 'md', 'same_ids') if k in case}
     return P.replay_case(check, base)
